@@ -20,7 +20,7 @@ LEVEL_TEXT = (
     "the value and the response key(s), contain everything computed before and nothing downstream must have run; exactly the dependency-minimal "
     "unanswered interrupt pauses; the final COMPLETED result of every history equals the run in which the handlers return those answers directly."
 )
-LEVEL_NOTE = "nested interrupts: pause identity only (as the quantifier says); resume of a nested pause is outside the statement's quantifier (DESIGN C14 S)"
+LEVEL_NOTE = "nested interrupts: pause identity only (as the quantifier says); resume of a nested pause is outside the statement's quantifier (DESIGN C14 S); every program on both construction paths; falsy answers; nested response_keys map; cached-interrupt call histories"
 RULE = "programs x interrupt placements x all handler answer/pause sequences (env choices, unbounded) x sibling completion orders (sched deviations <= bound); states = scheduler/history frontiers; distinct_nontrivial = distinct (program, placement) with >=1 pausing history"
 ASSUMPTIONS = ["responses are opaque tokens ('resp', node, output)", "a history is resumed on the same Graph object with the same inputs plus all responses collected so far"]
 
